@@ -75,6 +75,21 @@ def r1_transfer_loops(repo=None):
         env = pyutil.single_alias_env(f)
         inners = [lp for lp in ast.walk(f) if isinstance(lp, ast.For) and isinstance(lp.iter, ast.Call) and pyfront.call_name(lp.iter) == "ilsdrf"
                   and any(k.arg is None for k in lp.iter.keywords)]
+        if len(inners) > 1:
+            # 'transfer exactly the listed set; mv removes from the source exactly what it transferred': one listing per (source,
+            # destination) pair decides what happens to a file.  Two listing loops that both change the file system act on two
+            # selections - the second one is made later (a recorder has added files) and on a tree the first loop has changed.
+            changers = ("shutil.move", "shutil.copy2", "shutil.copy", "shutil.copyfile", "os.link", "os.symlink", "os.remove", "os.unlink",
+                        "os.rename", "os.replace")
+            acting = [lp for lp in inners if any(isinstance(c, ast.Call) and pyfront.call_name(c) in changers for c in ast.walk(lp))]
+            if len(acting) > 1:
+                second = acting[1]
+                what = [pyfront.call_name(c) for c in ast.walk(second) if isinstance(c, ast.Call) and pyfront.call_name(c) in changers][0]
+                r.violation(m.rel, name, "%s(...) in a second loop over ilsdrf(...)" % what, "the command lists the source twice and acts on "
+                            "both listings: what the second pass (`%s`) touches is whatever the listing selects *then* - a file a recorder "
+                            "added in between is removed without having been transferred, and with the destination below the source the "
+                            "fresh copies are selected too" % what, line=second.lineno)
+                continue
         if len(inners) != 1:
             raise AnalysisError("%s: loop over ilsdrf(src, **kwargs) not found exactly once (helpers inlined: %s)" % (name, fv.inlined))
         inner = inners[0]
@@ -590,9 +605,13 @@ def r3_wiring(repo=None):
         r.violation(m.rel, "_run_ln", "link function selection %s" % vals, "hard/symbolic selection altered", line=f.lineno)
     # listing source for ls
     rl = m.fn("_run_ls")
-    srcs = {pyfront.call_name(c) for c in ast.walk(rl) if isinstance(c, ast.Call) and pyfront.call_name(c) in ("ilsdrf", "lsdrf", "os.walk", "os.listdir", "glob.glob")}
+    srcs = {pyfront.call_name(c) for c in ast.walk(rl) if isinstance(c, ast.Call) and pyfront.call_name(c) in ("ilsdrf", "lsdrf", "os.walk", "os.listdir", "os.scandir", "glob.glob", "glob.iglob")}
+    # the shared listing functions count when they are referenced at all (called in place, or bound with functools.partial)
+    srcs |= {x.id for x in ast.walk(rl) if isinstance(x, ast.Name) and isinstance(x.ctx, ast.Load) and x.id in ("ilsdrf", "lsdrf")}
     if srcs <= {"ilsdrf", "lsdrf"} and srcs:
         r.ok("%s _run_ls" % m.rel, "paths come only from ilsdrf/lsdrf (same listing as the transfer commands)")
+    elif not srcs:
+        raise AnalysisError("_run_ls: no listing source recognised")
     else:
         r.violation(m.rel, "_run_ls", "path sources %s" % sorted(srcs), "ls does not list with the shared listing function", line=rl.lineno)
     r.guard(8)
@@ -867,7 +886,8 @@ EXPLANATION = (
     'commas and mapped to (source, destination) pairs; only a pair that repeats a kept one is dropped; pruning a channel '
     'that lies below another requested one is reported (the other listing need not cover it); overlap is resolved per '
     'file: the per-file loop of every command skips a destination path that was transferred already (`if D in seen: '
-    'continue; seen.add(D)`, the only conditional skip R1 accepts). Does NOT decide byte identity (library code).')
+    'continue; seen.add(D)`, the only conditional skip R1 accepts). Does NOT decide byte identity (library code). R1 '
+    'also: a run function with two loops over ilsdrf that both change the file system acts on two selections (violation).')
 TECHNIQUE = (
     'Python ast; alpha-equivalence of sibling commands; loop-carried dependence of the destination; option-table vs '
     'signature agreement; registry/table checks')
